@@ -111,6 +111,7 @@ def finish(ctx, level_note, explanation, trusted_base, rule_text):
         if not ok:
             broken.append("fixture %s did not behave as expected" % name)
 
+    selftest_mode = os.environ.get("VERIF_SELFTEST") == "1"     # run against a scratch copy: report only, write nothing
     os.makedirs(os.path.join(VERIF, "evidence", "replay"), exist_ok=True)
     out_lines = []
     for v in reobserved:
@@ -118,7 +119,8 @@ def finish(ctx, level_note, explanation, trusted_base, rule_text):
     replay_paths = []
     for i, v in enumerate(new):
         rp = os.path.join(VERIF, "evidence", "replay", "%s_%d.json" % (pid, i))
-        json.dump(v, open(rp, "w"), indent=1)
+        if not selftest_mode:
+            json.dump(v, open(rp, "w"), indent=1)
         replay_paths.append(rp)
         out_lines.append("  %s:%s: [%s] %s: %s" % (v["file"], v["line"], v["rule"], v["fn"], v["msg"]))
         out_lines.append("VIOLATION property=%s replay=%s" % (pid, rp))
@@ -157,8 +159,9 @@ def finish(ctx, level_note, explanation, trusted_base, rule_text):
         "violations": len(new),
     }
     ev["coverage"].update(ctx.extra)
-    with open(os.path.join(VERIF, "evidence", "%s.json" % pid), "w") as fh:
-        json.dump(ev, fh, indent=1, default=str)
+    if not selftest_mode:
+        with open(os.path.join(VERIF, "evidence", "%s.json" % pid), "w") as fh:
+            json.dump(ev, fh, indent=1, default=str)
 
     for l in out_lines:
         print(l)
